@@ -57,6 +57,9 @@ def sym_params(e, with_init):
         P["im"] = I("init_min")
         P["ims"] = I("init_max_silence")
         e.assume(z3.And(P["im"] < P["mx"], P["ims"] >= 0, P["im"] >= 0))
+        if with_init == "le1":
+            # "the default initial phase": any init_min <= 1 (0 and 1 behave alike), any init_max_silence
+            e.assume(P["im"] <= 1)
     else:
         P["im"] = z3.IntVal(0)
         P["ims"] = z3.IntVal(0)
@@ -89,13 +92,39 @@ def cex_from_model(m, N, P, mode, with_init, extra=None):
     return c
 
 
+VALIDATE = [None]      # replay function of the property being checked: concrete instances of sampled paths are run on the real code
+
+
 def discharge(e, conds, mk_cex):
     """conds: {name: z3 Bool | bool}.  Returns a result dict."""
     names = list(conds)
     goal = z3.And(*[tobool(conds[k]) for k in names]) if names else z3.BoolVal(True)
     r, m = e.refute(goal)
     if r == "unsat":
-        return {"status": "ok", "obligations": len(names)}
+        out = {"status": "ok", "obligations": len(names)}
+        if VALIDATE[0] is not None and (sum(e.trace) + len(e.trace)) % 11 == 0:
+            # validation against the implementation: a concrete instance of this path must satisfy the property on the
+            # unmodified package as well (judged by the independent concrete oracle of the replay)
+            mm = e.model()
+            if mm is not None:
+                try:
+                    from ..engine import _arm, PathBudget
+                    _arm(10)
+                    try:
+                        cc = mk_cex(mm)
+                        bad = VALIDATE[0](cc)
+                    finally:
+                        _arm(e.path_wall_s)
+                    out["validated_against_impl"] = not bad
+                    if bad:
+                        # the concrete instance of a path whose obligations were discharged violates the property on the real
+                        # code: the symbolic run and the implementation disagree (the code left the modelled fragment, or a
+                        # float effect under an idealisation).  The instance is a genuine, replayable counterexample.
+                        return {"status": "cex", "failing": ["concrete instance of a discharged path fails on the real code: %s" % bad[0][0]],
+                                "cex": cc, "validated_against_impl": False}
+                except Exception:
+                    pass
+        return out
     if r == "sat":
         failing = [k for k in names if not z3.is_true(m.eval(tobool(conds[k]), model_completion=True))]
         return {"status": "cex", "failing": [str(k) for k in failing], "cex": mk_cex(m)}
@@ -147,6 +176,18 @@ def bmc_harness(core, N, mode, with_init, oblig, delivery="list", falsy=False):
         r = discharge(e, conds, lambda m: cex_from_model(m, N, P, mode, with_init, {"falsy": True} if falsy else None))
         r["tokens"] = len(toks)
         r["shape"] = [(int(s) if isinstance(s, int) else str(s), int(en) if isinstance(en, int) else str(en)) for _, s, en in toks][:6]
+        if r["status"] == "ok" and delivery == "list" and sum(e.trace) % 5 == 0:
+            # validation of the engine against the implementation: a concrete instance of this path is run on the unmodified
+            # package and must give the token boundaries the symbolic run produced
+            m = e.model()
+            if m is not None:
+                c = cex_from_model(m, N, P, mode, with_init, {"falsy": True} if falsy else None)
+                try:
+                    _, ctoks, _ = replay_tokens(c)
+                    same = [(s, en) for _, s, en in ctoks] == [(s, en) for _, s, en in toks]
+                except Exception:
+                    same = False
+                r["validated_against_impl"] = same
         return r
     return path
 
@@ -156,7 +197,7 @@ def run_bmc(rep, core, name, N, modes, inits, oblig, replay_fn, delivery="list",
     replay_fn(cex) -> list of (key, what) failures observed on the real code (empty if not reproduced)."""
     for with_init in inits:
         for mode in modes:
-            hn = "%s[N<=%d,mode=%d,%s]" % (name, N, mode, "init" if with_init else "noinit")
+            hn = "%s[N<=%d,mode=%d,%s]" % (name, N, mode, "init_min<=1" if with_init == "le1" else "init" if with_init else "noinit")
             ex = explore(bmc_harness(core, N, mode, with_init, oblig, delivery, falsy), timeout_ms=timeout_ms,
                          deadline_s=deadline_s)
             rep.add_exploration(hn, ex, bounds={"frames": N, "mode": mode, "initial_phase_symbolic": with_init})
@@ -164,6 +205,7 @@ def run_bmc(rep, core, name, N, modes, inits, oblig, replay_fn, delivery="list",
 
 
 def handle_cex(rep, hn, ex, replay_fn, limit=40, ideal=False):
+    VALIDATE[0] = replay_fn if VALIDATE[0] is None else VALIDATE[0]
     seen = 0
     confirmed = 0
     import time as _time
